@@ -613,6 +613,24 @@ def discharge(site, fx, policy):
         m = re.match(r"^\[.*; (\d+)\]$", bty)
         if idx is not None and m and idx < int(m.group(1)):
             return "D-array-lit-index: literal index %d into array of length %s" % (idx, m.group(1))
+        # `pair[0]` / `pair[1]` on the item of `x.windows(N)` / `x.chunks_exact(N)`: every item has exactly N elements
+        if idx is not None and F.strip(base).get("k") in ("Var", "Upvar"):
+            bv_ = F.strip(base)
+            for m_ in fam.members[1:]:
+                o_ = FL.Origins(m_)
+                if bv_["id"] in o_.src and any(h_ == "param" for _, _, h_ in o_.src[bv_["id"]]):
+                    use_ = fam.closure_use(m_["path"])
+                    if use_:
+                        recv_ = FL.peel(use_[0]["args"][0]) if use_[0].get("args") else None
+                        hops = 0
+                        while recv_ is not None and hops < 4 and recv_.get("k") == "Call" and "fn" in recv_ and recv_["fn"]["path"].startswith("std::iter::Iterator::") \
+                                and recv_["fn"]["path"].split("::")[-1] in ("by_ref", "peekable", "rev", "skip", "take", "filter", "skip_while", "take_while"):
+                            recv_ = FL.peel(recv_["args"][0])
+                            hops += 1
+                        if recv_ is not None and F.is_call(recv_, "core::slice::<impl [T]>::windows", "core::slice::<impl [T]>::chunks_exact") and len(recv_["args"]) == 2:
+                            nn_ = int_lit(recv_["args"][1])
+                            if nn_ is not None and 0 <= idx < nn_:
+                                return "D-window-index: item of %s(%d) indexed at %d" % (recv_["fn"]["path"].split("::")[-1], nn_, idx)
         if idx == 0:
             for f, pol in get_facts():
                 f = F.strip(f)
@@ -638,6 +656,11 @@ def discharge(site, fx, policy):
         kind = site.op.split(":")[0]
         p = n["fn"]["path"]
         args = n["args"]
+        if kind == "slice-panic" and p.endswith(("::windows", "::chunks", "::chunks_exact", "::rchunks", "::rchunks_exact")) and len(args) == 2:
+            sz = int_lit(args[1])
+            if sz is not None and sz > 0:
+                return "D-nonzero-size: %s(%d) panics only for size 0" % (p.split("::")[-1], sz)
+            return None
         if kind in ("slice-panic", "str-split_at") and p.endswith("split_at"):
             x, pos = args[0], args[1]
             r = pos_over_same(x, pos, fam)
